@@ -112,6 +112,7 @@ type Node struct {
 	Port  int
 	ln    net.Listener
 	c     *Cluster
+	down  bool
 }
 
 // New starts n nodes on OS-assigned loopback ports.
@@ -139,7 +140,10 @@ func (c *Cluster) Close() {
 	c.live = map[int64]*nodeConn{}
 	c.mu.Unlock()
 	for _, n := range c.Nodes {
-		n.ln.Close()
+		c.mu.Lock()
+		ln := n.ln
+		c.mu.Unlock()
+		ln.Close()
 	}
 	for _, nc := range live {
 		nc.close(false)
@@ -154,6 +158,38 @@ func (c *Cluster) SetHandler(h Handler) {
 	c.mu.Lock()
 	c.handler = h
 	c.mu.Unlock()
+}
+
+// SetDown makes node stop listening (connection attempts are refused) and drops its connections; SetDown(node,
+// false) listens on the same port again. It returns an error if the port cannot be re-acquired.
+func (c *Cluster) SetDown(node int, down bool) error {
+	n := c.Nodes[node]
+	if down {
+		c.mu.Lock()
+		n.down = true
+		c.mu.Unlock()
+		n.ln.Close()
+		c.CloseDataConns(node, true)
+		return nil
+	}
+	var ln net.Listener
+	var err error
+	for i := 0; i < 50; i++ {
+		ln, err = net.Listen("tcp4", n.Addr)
+		if err == nil {
+			break
+		}
+		time.Sleep(20 * time.Millisecond)
+	}
+	if err != nil {
+		return err
+	}
+	c.mu.Lock()
+	n.ln = ln
+	n.down = false
+	c.mu.Unlock()
+	go n.acceptLoop()
+	return nil
 }
 
 // SetAcceptClose makes node close every new connection right after accepting it (on = false restores it).
@@ -344,8 +380,11 @@ func (nc *nodeConn) close(rst bool) {
 }
 
 func (n *Node) acceptLoop() {
+	n.c.mu.Lock()
+	ln := n.ln
+	n.c.mu.Unlock()
 	for {
-		conn, err := n.ln.Accept()
+		conn, err := ln.Accept()
 		if err != nil {
 			return
 		}
